@@ -6,7 +6,7 @@ import ast
 import os
 import z3
 
-from .values import (SNum, SBool, SBytes, Opaque, Obj, SList, Unsupported, Infeasible, CUR, path,
+from .values import (SNum, SBool, SBytes, Opaque, OpaqueSeq, Obj, SList, Unsupported, Infeasible, CUR, path,
                      to_term, to_bool_term, mk_num, mk_bool, bytes_eq_branch, fresh_name)
 
 REPO = os.environ.get('VERIF_REPO', '/repo')
@@ -358,6 +358,8 @@ class Interp(object):
             return self.branch(v.t != 0)
         if isinstance(v, SBytes):
             return self.branch(v.len > 0)
+        if isinstance(v, OpaqueSeq):
+            return self.branch(v.len > 0)
         if isinstance(v, Opaque):
             return self.branch(z3.Bool(fresh_name('opq')))
         if isinstance(v, SList):
@@ -393,10 +395,18 @@ class Interp(object):
         return None
 
     # ---- expressions
+    PURE_NODES = ('BinOp', 'Subscript', 'Compare', 'JoinedStr', 'UnaryOp', 'ListComp', 'GeneratorExp', 'DictComp')
+
     def ev(self, n, env):
         m = getattr(self, 'e_' + type(n).__name__, None)
         if m is None:
             raise Unsupported('expression %s' % type(n).__name__)
+        if self.light and type(n).__name__ in self.PURE_NODES:
+            # light mode: a pure operation the value domain cannot express becomes an unknown value (or an Exception)
+            try:
+                return m(n, env)
+            except Unsupported as e:
+                return self.opaque_call('unmodelled %s: %s' % (type(n).__name__, e))
         return m(n, env)
 
     def e_Constant(self, n, env):
@@ -450,6 +460,8 @@ class Interp(object):
             v = self.m.obj_attr(self, base, attr)
             if v is not _MISSING:
                 return v
+            if isinstance(cls, BCls) and cls.name == 'OpaqueException':
+                return Opaque('attribute %s of an unknown exception' % attr)
             raise_builtin('AttributeError', attr)
         if isinstance(base, Cls):
             v = base.lookup(attr)
@@ -708,6 +720,11 @@ class Interp(object):
         if isinstance(fv, Func):
             return self.call_func(fv, list(args), kw)
         if isinstance(fv, Builtin):
+            if self.light:
+                try:
+                    return fv.fn(self, list(args), kw)
+                except Unsupported as e:
+                    return self.opaque_call('unmodelled call of %s: %s' % (fv.name, e))
             return fv.fn(self, list(args), kw)
         if isinstance(fv, Cls):
             return self.instantiate(fv, args, kw)
@@ -1194,6 +1211,10 @@ class Interp(object):
         return names
 
     def havoc_value(self, v, why):
+        if isinstance(v, OpaqueSeq):
+            n = z3.Int(fresh_name('hvn'))
+            self.p.assume(n >= 0)
+            return OpaqueSeq(n, why, v.kind)
         if isinstance(v, (SBytes, bytes)):
             return SBytes.fresh('hv')
         if isinstance(v, bool) or isinstance(v, SBool):
